@@ -165,6 +165,17 @@ func (*c03) Gen(rng *RNG, tier string) []Case {
 		}
 		cases = append(cases, expandUploads(Case{Lines: lines}))
 	}
+	// a large upload committed with a wrong digest: the error must keep its code across the wire
+	{
+		big := strings.Repeat("\x00\xffbinary\"", 500)
+		cases = append(cases, expandUploads(Case{Tag: "large-wrong-digest", Lines: []string{
+			"wire init 0 1 0000 0 0",
+			"mem pushchunked " + tok("a"),
+			"@W " + tok("a") + " " + tok(big),
+			"@C " + tok("a") + " " + tok(sha256Digest([]byte("not it"))),
+			"mem getblob " + tok("a") + " " + tok(sha256Digest([]byte(big))),
+		}}))
+	}
 	// large manifests on both sides of the client's in-memory threshold (only with the digest omitted does it matter)
 	for _, size := range []int{128*1024 - 1, 128 * 1024, 128*1024 + 1} {
 		data := []byte(strings.Repeat("m", size))
